@@ -1,6 +1,6 @@
 (* C11 inbound: preservation, part B (FinishOk: Delete, HasFollowers, copy). *)
 From Gv Require Import lib.Bytes C11.Model C11.ProofsInb.
-From Coq Require Import Arith Lia.
+From Coq Require Import Arith Lia Bool.
 Import Inb.
 
 Section S.
@@ -15,11 +15,8 @@ Proof.
   intros HI He Hpc Hs. unfold tau in Hs. rewrite Hpc in Hs.
   destruct (a_ref (act s i)) as [j|] eqn:Hr; [|discriminate]. own HI j i. start Hs.
   Time solve_inv HI.
-  all: idtac "DELETE REMAINING". fwd_light HI. norm. 
-  Fail solve [intuition (subst; norm; try congruence; try discriminate)].
-  Fail solve [intuition congruence].
-  exfalso. Fail congruence. apply n. Fail congruence. symmetry. exact H4.
-Admitted.
+  all: idtac "DELETE REMAINING". Show.
+Qed.
 
 Lemma inv_tau_hasf s i s' :
   Inv s -> exists_b i = true -> a_pc (act s i) = PHasF -> tau fixed reqs s i = Some s' -> Inv s'.
@@ -28,7 +25,11 @@ Proof.
   destruct (a_ref (act s i)) as [j|] eqn:Hr; [|discriminate]. own HI j i.
   cbn [fix_b fixed andb] in Hs. start Hs.
   Time solve_inv HI.
-  all: idtac "HASF REMAINING". Show.
+  all: idtac "HASF REMAINING".
+  apply andb_prop in H0 as [_ Hc]. apply negb_true_iff in Hc.
+  pose proof (c_post _ _ HI i) as P. rewrite Hpc in P. specialize (P eq_refl).
+  pose proof (c_out_own _ _ HI i _ _ P) as (_ & Q & _).
+  intro K. rewrite (Q K) in Hc. discriminate.
 Qed.
 
 Lemma inv_tau_copy s i s' :
